@@ -94,9 +94,13 @@ impl World {
         for a in &self.order {
             if let Some(w) = g.as_ref().and_then(|m| m.get(a)) {
                 let (max, avail, strong, closed) = w.__verif_counts();
+                #[cfg(feature = "metrics")]
+                let mcnt: i64 = w.upgrade().map(|r| r.message_count() as i64).unwrap_or(-1);
+                #[cfg(not(feature = "metrics"))]
+                let mcnt: i64 = -1;
                 emit(json!({"e": "Sample", "a": a, "max": max,
                             "avail": if closed { 0 } else { avail },
-                            "strong": strong, "closed": closed, "dlc": dlc()}));
+                            "strong": strong, "closed": closed, "dlc": dlc(), "mcnt": mcnt}));
             }
         }
     }
@@ -547,6 +551,26 @@ impl World {
         let wf: Vec<Value> = vec![];
         emit(json!({"e": "Quiescent", "pending": pending, "unjoined": unjoined, "wf": wf,
                     "now": NOW.load(Ordering::SeqCst)}));
+        #[cfg(feature = "metrics")]
+        with_handles(|hs| {
+            let mut ids: Vec<u64> = hs.keys().cloned().collect();
+            ids.sort();
+            for h in ids {
+                let r: Option<ActorRef<S>> = match &hs[&h] {
+                    H::S(r) => Some((**r).clone()),
+                    H::W(w) => w.upgrade(),
+                    _ => None,
+                };
+                if let Some(r) = r {
+                    let snap = r.metrics();
+                    emit(json!({"e": "Metrics", "a": name_of(r.identity().id), "h": h,
+                                "cnt": r.message_count(), "avg": r.avg_processing_time().as_micros() as u64,
+                                "max": r.max_processing_time().as_micros() as u64, "err": r.error_count(),
+                                "scnt": snap.message_count, "savg": snap.avg_processing_time.as_micros() as u64,
+                                "smax": snap.max_processing_time.as_micros() as u64}));
+                }
+            }
+        });
     }
 
     /// After the scheduled commands: open every gate with its default outcome, poll and run
@@ -675,7 +699,9 @@ fn canon(v: &Value) -> Value {
     }
 }
 
-fn same_events(exp: &[Value], got: &[Value]) -> bool {
+fn same_events(exp: &[Value], got_all: &[Value]) -> bool {
+    // metrics read-outs at quiescence are judged by the monitor only; the model does not predict them
+    let got: Vec<&Value> = got_all.iter().filter(|e| e["e"] != "Metrics").collect();
     if exp.len() != got.len() {
         return false;
     }
@@ -683,10 +709,21 @@ fn same_events(exp: &[Value], got: &[Value]) -> bool {
         let mut e = canon(e);
         let mut g = canon(g);
         // the dead-letter counter is only observable with the test-utils feature
-        if g.get("dlc").and_then(|x| x.as_i64()) == Some(-1) {
-            e.as_object_mut().map(|m| m.remove("dlc"));
-            g.as_object_mut().map(|m| m.remove("dlc"));
+        for k in ["dlc", "mcnt"] {
+            if g.get(k).and_then(|x| x.as_i64()) == Some(-1) && cfg_wild(k) {
+                e.as_object_mut().map(|m| m.remove(k));
+                g.as_object_mut().map(|m| m.remove(k));
+            }
         }
         e == g
     })
+}
+
+/// is a -1 in this field "feature not compiled in" (wildcard) rather than an observation?
+fn cfg_wild(k: &str) -> bool {
+    match k {
+        "dlc" => !cfg!(feature = "test-utils"),
+        "mcnt" => !cfg!(feature = "metrics"),
+        _ => false,
+    }
 }
